@@ -559,7 +559,7 @@ pointwise_matrix(const crs<value_type, col_type, ptr_type> &A, unsigned block_si
                     ptr_type end = e[k];
 
                     while(beg < end) {
-                        col_type c = A.col[beg++];
+                        col_type c = A.col[beg];
 
                         if (c >= col_end) {
                             if (done) {
@@ -571,6 +571,8 @@ pointwise_matrix(const crs<value_type, col_type, ptr_type> &A, unsigned block_si
 
                             break;
                         }
+
+                        ++beg;
                     }
 
                     j[k] = beg;
@@ -626,7 +628,6 @@ pointwise_matrix(const crs<value_type, col_type, ptr_type> &A, unsigned block_si
                     while(beg < end) {
                         col_type c = A.col[beg];
                         S v = math::norm(A.val[beg]);
-                        ++beg;
 
                         if (c >= col_end) {
                             if (done) {
@@ -639,6 +640,7 @@ pointwise_matrix(const crs<value_type, col_type, ptr_type> &A, unsigned block_si
                             break;
                         }
 
+                        ++beg;
 
                         if (first) {
                             first = false;
